@@ -174,6 +174,21 @@ pub fn run_case_with(gd: &GenDict, mk: &dyn Fn() -> Outcome<vibrato::Dictionary>
     let mut worker = tokenizer.new_worker();
     if counting {
         worker.init_connid_counter();
+        // 1 counting case in 3: an earlier counting run on the same worker (some of the sentences),
+        // then the counter is initialised again; the recorded run starts from zero counts
+        if rng.chance(1, 3) {
+            let _ = std::panic::catch_unwind(std::panic::AssertUnwindSafe(|| {
+                for s in sentences.iter().rev().take(2) {
+                    worker.reset_sentence(s);
+                    worker.tokenize();
+                    worker.update_connid_counts();
+                }
+            }));
+            worker = match std::panic::catch_unwind(std::panic::AssertUnwindSafe(move || { worker.init_connid_counter(); worker })) {
+                Ok(w) => w,
+                Err(_) => { let mut w = tokenizer.new_worker(); w.init_connid_counter(); w }
+            };
+        }
     }
     let mut sents = vec![];
     for s in sentences {
@@ -258,8 +273,26 @@ pub fn run_case_with(gd: &GenDict, mk: &dyn Fn() -> Outcome<vibrato::Dictionary>
         let mut other = gd.clone();
         other.user = Some(gd.sys.iter().take(2).cloned().collect());
         let user_csv = GenDict::rows_csv(&user_rows);
+        // half of the time the dictionary goes through three id mappings whose composition is the
+        // identity (two random ones and the inverse of their composition) before the user lexicon is
+        // loaded: the loaded rows must be read with the composed (= identity) mapping
+        let net_identity_maps = |rng: &mut Rng, n: usize| -> Vec<Vec<u16>> {
+            let p = |rng: &mut Rng| -> Vec<u16> { let mut v: Vec<u16> = (1..n as u16).collect(); rng.shuffle(&mut v); v };
+            let (v1, v2) = (p(rng), p(rng));
+            let f = |v: &Vec<u16>, x: u16| -> u16 { v.iter().position(|y| *y == x).unwrap() as u16 + 1 };
+            let v3: Vec<u16> = (1..n as u16).map(|k| f(&v2, f(&v1, k))).collect();
+            vec![v1, v2, v3]
+        };
+        let maps = if rng.chance(1, 2) { Some((net_identity_maps(rng, gd.nleft), net_identity_maps(rng, gd.nright))) } else { None };
+        let with_maps = move |d: vibrato::Dictionary| -> vibrato::errors::Result<vibrato::Dictionary> {
+            let mut d = d;
+            if let Some((ls, rs)) = maps {
+                for (l, r) in ls.into_iter().zip(rs) { d = d.map_connection_ids_from_iter(l, r)?; }
+            }
+            Ok(d)
+        };
         let replaced = match other.build() {
-            Outcome::Ok(d) => guarded(move || d.reset_user_lexicon_from_reader(Some(user_csv.as_bytes()))),
+            Outcome::Ok(d) => guarded(move || with_maps(d)?.reset_user_lexicon_from_reader(Some(user_csv.as_bytes()))),
             Outcome::Err => match nouser.build() {
                 // the first user lexicon was rejected (e.g. empty): load directly
                 Outcome::Ok(d) => guarded(move || d.reset_user_lexicon_from_reader(Some(user_csv.as_bytes()))),
@@ -370,6 +403,7 @@ pub fn run(prop: &str, seed: u64, n: usize, outdir: &str, _corpus: Option<&str>)
             allow_uncovered: prop == "C01" || prop == "C10",
             with_user: if prop == "C08" { 90 } else { 35 },
             tie_heavy: prop == "C02" && rng.chance(1, 2),
+            many_ids: prop == "C13",
             malformed: prop == "C10" && rng.chance(1, 2),
         };
         let gd = gen_dict(&mut rng, &go);
